@@ -84,6 +84,7 @@ type ConnPlan struct {
 	mu         sync.Mutex
 	Commands   []Command
 	written    int32 // steps fully written
+	started    int32 // steps whose write has begun
 	PeerClosed chan struct{} // closed when the replica's side of the socket is seen closed
 	Finished   chan struct{} // closed when the connection handler has returned
 	Err        error        // harness-level problem talking to the replica
@@ -102,6 +103,10 @@ func (p *ConnPlan) closeConn(c net.Conn) {
 	atomic.StoreInt32(&p.weClosed, 1)
 	c.Close()
 }
+
+// Started returns how many steps the master has begun to write (a replica cannot
+// have read a byte of a step that was not started).
+func (p *ConnPlan) Started() int { return int(atomic.LoadInt32(&p.started)) }
 
 // Written returns how many steps have been written completely.
 func (p *ConnPlan) Written() int { return int(atomic.LoadInt32(&p.written)) }
@@ -422,6 +427,7 @@ func (p *ConnPlan) dump(c net.Conn, req Command) {
 			break
 		}
 		var err error
+		atomic.AddInt32(&p.started, 1)
 		if s.Raw != nil {
 			_, err = c.Write(s.Raw)
 		} else {
